@@ -58,7 +58,7 @@ func GenImport(r *simrt.Rand, faultsOK bool) *ImportProg {
 		return names[r.Intn(len(names))]
 	}
 	impStmt := func(inModule bool) ImportStmt {
-		s := ImportStmt{K: "imp", M: pickTarget(), Form: []string{"plain", "as", "from", "fromas", "star", "plain", "from"}[r.Intn(7)], ID: next()}
+		s := ImportStmt{K: "imp", M: pickTarget(), Form: []string{"plain", "as", "from", "fromas", "star", "plain", "from", "func", "dunder", "from2"}[r.Intn(10)], ID: next()}
 		missing := strings.HasPrefix(s.M, "nosuch")
 		switch s.Form {
 		case "from", "fromas":
@@ -66,6 +66,8 @@ func GenImport(r *simrt.Rand, faultsOK bool) *ImportProg {
 			s.Wrap = true
 		case "star":
 			s.Wrap = missing || inModule
+		case "func", "dunder", "from2":
+			s.Wrap = true
 		default:
 			s.Wrap = missing && inModule
 		}
@@ -73,6 +75,9 @@ func GenImport(r *simrt.Rand, faultsOK bool) *ImportProg {
 			s.Wrap = r.Chance(2, 3)
 		}
 		if s.Form != "star" && !s.Wrap && r.Chance(1, 4) {
+			s.Wrap = true
+		}
+		if s.Form == "func" || s.Form == "dunder" || s.Form == "from2" {
 			s.Wrap = true
 		}
 		if (s.Form == "as" || s.Form == "fromas") && r.Chance(1, 3) {
@@ -220,6 +225,16 @@ func renderImportStmt(b *strings.Builder, s ImportStmt, me string) {
 		case "star":
 			stmt = fmt.Sprintf("from %s import *", s.M)
 			probe = ""
+		case "func":
+			// the import statement executes inside a function (other globals / locals)
+			stmt = fmt.Sprintf("def _imp%d():\n        import %s\n        from %s import x as _fx\n        return (%s.x, _fx)\n    log(%s, \"func\", _imp%d())", s.ID, s.M, s.M, s.M, tag, s.ID)
+			probe = ""
+		case "dunder":
+			stmt = fmt.Sprintf("%s = __import__(\"%s\")", alias, s.M)
+			probe = fmt.Sprintf("log(%s, \"imported\", %s.x)", tag, alias)
+		case "from2":
+			stmt = fmt.Sprintf("from %s import x as %s, val as %s_v, h as %s_h", s.M, alias, alias, alias)
+			probe = fmt.Sprintf("log(%s, \"from2\", %s, %s_v, %s_h)", tag, alias, alias, alias)
 		}
 		if s.Wrap {
 			fmt.Fprintf(b, "try:\n    %s\n    log(%s, \"ok\")\nexcept ImportError as _e:\n    log(%s, \"failed\", exc_name(_e))\nexcept AttributeError as _e:\n    log(%s, \"failed-attr\", exc_name(_e))\n", stmt, tag, tag, tag)
